@@ -35,11 +35,11 @@ instance (flt : Strata) (o : Option Comp) : Decidable (endSelected flt o) := by
   cases o <;> unfold endSelected <;> infer_instance
 
 /-- flow request: same name, and both ends pass their filter -/
-def flowSelected {α : Type} (name : String) (ss ds : Strata) (f : Flow α) : Prop :=
+def flowSelectedD {α : Type} (name : String) (ss ds : Strata) (f : Flow α) : Prop :=
   f.name = name ∧ endSelected ss f.src ∧ endSelected ds f.dst
 
-instance {α : Type} (name : String) (ss ds : Strata) (f : Flow α) : Decidable (flowSelected name ss ds f) := by
-  unfold flowSelected; infer_instance
+instance {α : Type} (name : String) (ss ds : Strata) (f : Flow α) : Decidable (flowSelectedD name ss ds f) := by
+  unfold flowSelectedD; infer_instance
 
 section
 variable {α : Type} [Zero α] [One α] [Add α] [Sub α] [Mul α] [Div α] [LT α] [DecidableLT α]
@@ -54,7 +54,7 @@ def compOutputAt (m : Model α) (names : List String) (flt : Strata) (row : List
 
 /-- raw flow output at one time: the sum of the selected flows' rates in that row of flow rates -/
 def flowOutputAt (m : Model α) (name : String) (ss ds : Strata) (row : List α) : α :=
-  sumSelected m.flows (flowSelected name ss ds) row
+  sumSelected m.flows (flowSelectedD name ss ds) row
 
 /-- non-raw flow output: the first value is unchanged, every later value is the mean of the raw value
 and its predecessor -/
